@@ -2,7 +2,7 @@
 META = {
     "level": "exploration",
     "technique": "runtime monitoring of build_manifest / start_deep_stats / start_deep_check / deep_traverse(custom walker) on generated directory graphs stored on an in-process grid, compared with an independent reachability model keyed by specification-derived verify-caps",
-    "text": "Generates directory graphs of <= 40 objects on real storage servers: trees, DAGs with shared sub-directories and shared files, cycles (self-loop, loop to an ancestor, loop back to the root through its READ-cap), the same object linked through write-cap and read-cap, SDMF/MDMF/immutable/literal directories, CHK/LIT/SDMF/MDMF files, unknown caps, unreachable objects. The root is opened through its write-cap or read-cap and traversed by the real manifest builder, deep-stats, deep-check (verify=False) and a recording walker. Oracle: identity = verify-cap computed by the independent hash chain; every reachable identity is reported exactly once, identity-less objects (LIT files, LIT directories, unknown nodes) exactly once per link from a visited directory, nothing unreachable is reported; the verify-cap and storage-index sets equal the model's; every manifest (path, cap) resolves in the model and through root.get_child_at_path(path) to that cap; deep-stats counters and sizes (files, directories, immutable, literal, mutable, unknown, size sums, largest file, largest-directory-children, histogram) equal the model's; deep-check checks each identity once; the walker sees enter_directory once per visited directory with the model's child names.",
+    "text": "Generates directory graphs of <= 40 objects on real storage servers: trees, DAGs with shared sub-directories and shared files, cycles (self-loop, loop to an ancestor, loop back to the root through its READ-cap), the same object linked through write-cap and read-cap, SDMF/MDMF/immutable/literal directories, CHK/LIT/SDMF/MDMF files, unknown caps, unreachable objects. The root is opened through its write-cap or read-cap and traversed by the real manifest builder, deep-stats, deep-check (verify=False) and a recording walker. Oracle: identity = verify-cap computed by the independent hash chain; every reachable identity is reported exactly once, identity-less objects (LIT files, LIT directories, unknown nodes) exactly once per link from a visited directory, nothing unreachable is reported; the verify-cap and storage-index sets equal the model's; every manifest (path, cap) resolves in the model and through root.get_child_at_path(path) to that cap; deep-stats counters and sizes (files, directories, immutable, literal, mutable, unknown, size sums, largest file, largest-directory-children, histogram) equal the model's; deep-check and deep-check-and-repair (verify on and off) each hold exactly one result per reachable identity, at a path that resolves to it (health verdicts are not judged); graphs include empty files (size-0 literal, emptied mutable) linked once and twice, and the same mutable object linked from one directory by read-cap and by write-cap under names that sort either way; the walker sees enter_directory once per visited directory with the model's child names.",
     "note": "Which of several paths / caps is reported for a shared object is left open (any path that resolves). size-directories / largest-directory depend on serialisation details and are not judged. Trusts the hash chain in _caps.py.",
 }
 LEVEL = "exploration"
@@ -587,3 +587,5 @@ def one_case(ck, g, rng, caseno):
 #   c21-child-path-drops-parent        childpath = path[-1:] + [name]                   -> manifest-path-does-not-lead-to-its-object
 #   c21-stats-literal-counted-as-chk   DeepStats counts 1-byte LIT files as immutable   -> deep-stats-differ-from-model
 #   c21-found-by-readcap               found keyed by get_uri() (write- vs read-cap differ) -> object-visited-more-than-once
+#   seeded/C21-3   DeepStats.add_node returns early for size-0 files           -> deep-stats-differ-from-model (empty LIT file)
+#   seeded/C21-4   DeepChecker (repair) skips nodes without repair cap         -> deep-check-object-count-differs, reachable-object-not-visited
